@@ -351,13 +351,52 @@ def randomizer(ctx) -> None:
                     else:
                         ctx.rep.inconclusive(rule, cc, f"cannot classify the lanes `{show(val)[:60]}`", where=w)
         # keys zipped with the permuted values are the same slice
-        zl = [h for h in fv.cfg.nodes if h.kind == "for" and isinstance(h.ast.iter, ast.Call) and call_fname(h.ast.iter) == "zip" and _modes_of(fv, h.id) == modes]
-        okz = False
-        for h in zl:
-            z = fv.res.resolve(h.ast.iter, h.id)
-            if len(z.args) == 2 and key(z.args[0]) == key(arg) and isinstance(z.args[1], ast.Call) and call_fname(z.args[1]) == "permutation":
-                okz = True
-        ctx.rep.check(okz, rule, c + "/lookup", "lookup maps the slice onto its own permutation", "the lookup of this mode does not map each slice onto the permutation of the same slice", where=w)
+        zips = []
+        for n in fv.cfg.nodes:
+            if _modes_of(fv, n.id) != modes:
+                continue
+            roots = [n.ast.iter] if n.kind == "for" else ([n.ast] if n.kind == "stmt" else [])
+            for root in roots:
+                for sub in own_walk(root):
+                    if isinstance(sub, ast.Call) and call_fname(sub) == "zip" and len(sub.args) == 2:
+                        zips.append((n, sub))
+        verdict, detail = None, "no zip(<slice>, <its permutation>) feeds the lookup of this mode"
+        for n, z in zips:
+            zr = fv.res.resolve(z, n.id)
+            if not (isinstance(zr, ast.Call) and len(zr.args) == 2):
+                continue
+            k_ok = key(zr.args[0]) == key(arg)
+            p_ok = isinstance(zr.args[1], ast.Call) and call_fname(zr.args[1]) in ("permutation", "tolist") and key(arg) in key(zr.args[1])
+            swapped = key(zr.args[1]) == key(arg) and isinstance(zr.args[0], ast.Call) and call_fname(zr.args[0]) in ("permutation", "tolist")
+            if swapped and mode != "full":
+                pass  # a permutation's inverse is a permutation too, but randomize/derandomize tables would be exchanged: treat as mismatch below
+            if not (k_ok and p_ok):
+                verdict, detail = False, f"`{show(z)[:60]}` does not pair the wells of the slice with the permutation of the same slice"
+                continue
+            # how is the pairing consumed?
+            consumed = False
+            if n.kind == "for" and n.ast.iter is z and isinstance(n.ast.target, ast.Tuple) and len(n.ast.target.elts) == 2:
+                o, r_ = n.ast.target.elts
+                for m in (fv.cfg.nodes[i] for i in fv.cfg.loop_body[n.id]):
+                    if m.kind == "stmt" and isinstance(m.ast, ast.Assign) and isinstance(m.ast.targets[0], ast.Subscript) and attr_of_name(m.ast.targets[0].value, selfn, "lookup") \
+                            and key(m.ast.targets[0].slice) == key(o) and key(m.ast.value) == key(r_):
+                        consumed = True
+            elif n.kind == "stmt":
+                for sub in own_walk(n.ast):
+                    if isinstance(sub, ast.Call) and isinstance(sub.func, ast.Attribute) and sub.func.attr == "update" and attr_of_name(sub.func.value, selfn, "lookup") and sub.args and sub.args[0] is z:
+                        consumed = True
+                if isinstance(n.ast, ast.Assign) and attr_of_name(n.ast.targets[0], selfn, "lookup"):
+                    v_ = n.ast.value
+                    if isinstance(v_, ast.Call) and call_fname(v_) == "dict" and v_.args and v_.args[0] is z:
+                        consumed = True
+                    if isinstance(v_, ast.DictComp) and len(v_.generators) == 1 and v_.generators[0].iter is z and isinstance(v_.generators[0].target, ast.Tuple) \
+                            and key(v_.key) == key(v_.generators[0].target.elts[0]) and key(v_.value) == key(v_.generators[0].target.elts[1]) and not v_.generators[0].ifs:
+                        consumed = True
+            if consumed:
+                verdict, detail = True, "lookup maps the slice onto its own permutation"
+                break
+            detail = f"cannot see how `{show(z)[:50]}` is stored into self.lookup"
+        ctx.rep.check(verdict, rule, c + "/lookup", "lookup maps the slice onto its own permutation", detail, where=w)
     missing = {"full", "row", "column"} - covered
     if missing:
         ctx.rep.inconclusive(rule, f"{f.qualname}/modes", f"no permutation site found for mode(s) {sorted(missing)}", where=f.where())
